@@ -1294,6 +1294,8 @@ fn one_request(world: &mut World, ctx: &mut Ctx, main: &str, i: usize, req: &Req
     }
 }
 
+include!("c10/sched.rs");
+
 fn main() {
     let mut check = Check::new("C10", "exploration");
     check.assume("source histories are built through the real ContinuityStore API (messages, run_spawned/run_ended and run-linked frames via the H7b appenders, cursors, checkpoints, auto/schedule, restarts); no cache faults (C04) and no concurrency (C01) here");
@@ -1314,6 +1316,14 @@ fn main() {
         GroupOpts { cases: n, max_shrink_iters: 60, ..Default::default() },
         || case_strategy(4, 8, 6),
         |c: &Case| run(c, true),
+    );
+    let n = check.cases(4_000, 100_000);
+    check.group(
+        "child_visibility",
+        "actor A performs 1-2 branch / handoff calls on one ContinuityStore, parked at the store's hook points (log write / flush, end of cache appends, index temp file and rename, artifact rename) following a generated choice vector; actor B polls the thread list and posts to every new thread the moment it is listed. Verdict from the raw log: every child starts with continuity_created, then its lineage frame. non-trivial = the watcher posted to a child; distinct by case hash",
+        GroupOpts { cases: n, max_shrink_iters: 100, watchdog_s: 600, ..Default::default() },
+        vis_case_strategy,
+        run_vis,
     );
     check.finish();
 }
